@@ -133,6 +133,27 @@ def checkCleanClauseR [DecidableEq α] (rel : Item α → Item α → Bool) (kee
     "removed-without-better-neighbour-in-group"
   else "ok"
 
+/-- the clauses the statement names, and nothing else: every remaining row is an input row, no row remains
+twice, no two remaining rows of a group are `rel`-close, every removed row is `rel`-close to a remaining row of
+its group with an equal or better score. The ORDER of the remaining rows is not tested (the statement is silent
+about it): this is the checker whose rejection is a `spec` finding; `groupsInOrder` alone is a `corr` finding -/
+def checkCleanCoreR [DecidableEq α] (rel : Item α → Item α → Bool) (keepGreater : Bool) (items out : List (Item α)) : Bool :=
+  out.all (fun a => items.contains a) &&
+  nodupB (out.map (·.idx)) &&
+  out.all (fun a => out.all (fun b => a.idx == b.idx || !decide (a.grp = b.grp) || !rel a b)) &&
+  items.all (fun r => out.contains r ||
+    out.any (fun k => decide (k.grp = r.grp) && rel k r && betterEq keepGreater k.score r.score))
+
+def checkCleanCoreClauseR [DecidableEq α] (rel : Item α → Item α → Bool) (keepGreater : Bool) (items out : List (Item α)) : String :=
+  if !out.all (fun a => items.contains a) then "remaining-not-an-input-particle"
+  else if !nodupB (out.map (·.idx)) then "a-particle-remains-twice"
+  else if !out.all (fun a => out.all (fun b => a.idx == b.idx || !decide (a.grp = b.grp) || !rel a b)) then
+    "two-remaining-closer-than-d"
+  else if !items.all (fun r => out.contains r ||
+      out.any (fun k => decide (k.grp = r.grp) && rel k r && betterEq keepGreater k.score r.score)) then
+    "removed-without-better-neighbour-in-group"
+  else "ok"
+
 /-- the checker for the statement's reading: closer means `dist < d` -/
 def checkClean [DecidableEq α] (d : α) (keepGreater : Bool) (items out : List (Item α)) : Bool :=
   checkCleanR (closer d) keepGreater items out
@@ -155,6 +176,16 @@ def checkGroups [DecidableEq α] (rel : Item α → Item α → Bool) (keepGreat
 /-- every remaining row belongs to the list and every group passes on its own -/
 def checkIndependent [DecidableEq α] (rel : Item α → Item α → Bool) (keepGreater : Bool) (items out : List (Item α)) : Bool :=
   out.all (fun a => items.contains a) && (checkGroups rel keepGreater items out).all (fun r => r.2.1)
+
+/-- per-group verdicts of the order-free checker -/
+def checkGroupsCore [DecidableEq α] (rel : Item α → Item α → Bool) (keepGreater : Bool) (items out : List (Item α)) :
+    List (α × Bool × String) :=
+  (groupKeys (items.map (·.grp))).map (fun k =>
+    (k, checkCleanCoreR rel keepGreater (restrict k items) (restrict k out),
+      checkCleanCoreClauseR rel keepGreater (restrict k items) (restrict k out)))
+
+def checkIndependentCore [DecidableEq α] (rel : Item α → Item α → Bool) (keepGreater : Bool) (items out : List (Item α)) : Bool :=
+  out.all (fun a => items.contains a) && (checkGroupsCore rel keepGreater items out).all (fun r => r.2.1)
 
 end Clean
 
@@ -276,10 +307,17 @@ def carryOk (thr : α) [DecidableEq α] (vs : List (Vox α)) (anglist : List (α
       decide (0 ≤ v.ang - numbering) &&
       decide (anglist[(v.ang - numbering).toNat]? = some (listedAngles ord p))))
 
-/-- peaks are farther apart than the diameter -/
+/-- peaks at different positions are farther apart than the diameter (kept for reference; `checkPeaks` uses
+the stronger `farPairs`, which also rejects two rows at one position) -/
 def farOk (dn dd : Nat) (out : List (Peak α)) : Bool :=
   out.all (fun p => out.all (fun q => decide (p.x = q.x ∧ p.y = q.y ∧ p.z = q.z) ||
       decide ((dn : Int) * dn < vd2 p.x p.y p.z q.x q.y q.z * ((dd : Int) * dd))))
+
+/-- any two ENTRIES of the peak table (list positions i < j) are farther apart than the diameter; two rows at
+the same position (distance 0) are therefore rejected for every diameter -/
+def farPairs (dn dd : Nat) : List (Peak α) → Bool
+  | [] => true
+  | p :: t => t.all (fun q => decide ((dn : Int) * dn < vd2 p.x p.y p.z q.x q.y q.z * ((dd : Int) * dd))) && farPairs dn dd t
 
 /-- every voxel above the threshold is within the diameter of a peak with an equal or higher score -/
 def coverOk (thr : α) (dn dd : Nat) (vs : List (Vox α)) (out : List (Peak α)) : Bool :=
@@ -290,12 +328,12 @@ def coverOk (thr : α) (dn dd : Nat) (vs : List (Vox α)) (out : List (Peak α))
 /-- verified checker of the peak clauses on any claimed peak table -/
 def checkPeaks (thr : α) (dn dd : Nat) [DecidableEq α] (vs : List (Vox α)) (anglist : List (α × α × α)) (numbering : Int)
     (ord : AngOrder) (out : List (Peak α)) : Bool :=
-  carryOk thr vs anglist numbering ord out && farOk dn dd out && coverOk thr dn dd vs out
+  carryOk thr vs anglist numbering ord out && farPairs dn dd out && coverOk thr dn dd vs out
 
 def checkPeaksClause (thr : α) (dn dd : Nat) [DecidableEq α] (vs : List (Vox α)) (anglist : List (α × α × α)) (numbering : Int)
     (ord : AngOrder) (out : List (Peak α)) : String :=
   if !carryOk thr vs anglist numbering ord out then "peak-does-not-carry-voxel-score-position-angles-or-is-below-threshold"
-  else if !farOk dn dd out then "two-peaks-within-the-diameter"
+  else if !farPairs dn dd out then "two-peaks-within-the-diameter"
   else if !coverOk thr dn dd vs out then "supra-threshold-voxel-not-covered-by-a-better-peak"
   else "ok"
 
